@@ -325,6 +325,23 @@ Theorem C06_single_alignment_kept_original_refuted : ~ single_alignment_kept_sta
 Proof. exact single_alignment_kept_original_refuted. Qed.
 Print Assumptions C06_single_alignment_kept_original_refuted.
 
+(* --- read groups ---------------------------------------------------------------------------------- *)
+
+(* SampleBamReader.fetch(sample = s) (model: sample_select) delivers exactly the alignments whose RG tag names a read
+   group with SM = s -- for every order of the @RG lines in the header, in particular when the read groups of a sample
+   are not adjacent.  (h: the @RG lines as (read group id, SM); rgs: the RG tag of each alignment.) *)
+Theorem C06_sample_select_spec :
+  forall (h : rg_header) (s : nat) (rgs : list (option nat)) (alns l : list alignment) (a : alignment),
+  sample_select h (Some s) rgs alns = (Some l, 0) ->
+  (In a l <-> exists k g, nth_error alns k = Some a /\ nth_error rgs k = Some (Some g) /\ In (g, Some s) h).
+Proof. exact sample_select_spec. Qed.
+Print Assumptions C06_sample_select_spec.
+
+Example C06_sample_select_example :
+  sample_groups [(1, Some 0); (2, Some 1); (3, Some 0); (4, None)] 0 = [1; 3] /\
+  select_by_rg [1; 3] [Some 3; Some 2; Some 1; Some 4] [10; 11; 12; 13] = [10; 12].
+Proof. vm_compute. split; reflexivity. Qed.
+
 (* the witnesses at the level of ReadSetReader.read, under the rules of the code as it was (what the real
    implementation returned before the fix: commits; found by the correspondence check) and under the repaired rules *)
 Example C06_witnesses :
